@@ -29,7 +29,7 @@ META = {
 }
 
 MODULE = "KafkaVerif.Props.C10"
-SCENARIOS = ["balancers", "writer", "codecs", "readerfront", "reader", "readergroup", "readerrebalance", "conn", "transport", "clientapis"]
+SCENARIOS = ["balancers", "writer", "writergrow", "codecs", "codecfail", "readerfront", "reader", "readergroup", "readerrebalance", "conn", "transport", "clientapis"]
 
 HDR = re.compile(r"^(Read|Write|Previous read|Previous write|Atomic read|Atomic write|Previous atomic read|Previous atomic write) at 0x[0-9a-f]+ by (?:goroutine \d+|main goroutine):")
 FRAME = re.compile(r"^\s+(\S+):(\d+)(?: \+0x[0-9a-f]+)?$")
@@ -92,7 +92,7 @@ def run(ctx):
         "interface calls are approximated by edges to every implementing method, function values start from the empty lockset; pointers to fields are followed only from &x.f call arguments into struct fields (readerStack.reader → Conn.rbuf); escapes through locals/returns/maps/channels are not (notes U2)",
         "hand-offs listed in go/extract/accesses/access_annotations.json (closure_locks, call_acquires, tokens, ctor_funcs, atomic_types) hold as justified there; tokens stand for channel/Once/WaitGroup ordering",
         "Go memory model as abstracted in Model/Lockset.lean: program order, unlock→lock (RUnlock↛RLock), go statement; atomics are race free among themselves",
-        "race-detector validation covers only the schedules that occurred in the generated programs (quick: 10 scenarios × 8 rounds; thorough: × 500 rounds × 4 seeds, GOMAXPROCS 2/4/8/16)",
+        "race-detector validation covers only the schedules that occurred in the generated programs (quick: 12 scenarios × 8 rounds; thorough: × 500 rounds × 4 seeds, GOMAXPROCS 2/4/8/16)",
     ]
     broken = []
     # ---- 1. regenerate the table
@@ -165,7 +165,7 @@ def run(ctx):
                         methods[m] = methods.get(m, 0) + 1
                 elif l.startswith("opmap "):
                     _, o, ms = l.split(" ", 2)
-                    opmap[o] = ms.split(",")
+                    opmap[o] = sorted(set(opmap.get(o, [])) | set(ms.split(",")))
                 elif l.startswith("panic ") or l.startswith("skipped "):
                     ctx.notes.append("driver observation: " + l)
                 elif l.startswith("stuck ") or l.startswith("codec-mismatch"):
@@ -189,9 +189,10 @@ def run(ctx):
                 reports.append(r)
         seen = set()
         for r in reports:
-            if r["key"] not in seen:
+            if r["key"] not in seen and len(seen) < 30:   # a broken pool discipline yields hundreds of reports: the first 30 distinct pairs
                 seen.add(r["key"])
                 lines.append("%s\treported" % r["key"])
+        ctx.coverage["detector_reports"] = {"total": len(reports), "distinct_site_pairs": len({r["key"] for r in reports})}
         ctx.coverage["methods_invoked"] = dict(sorted(methods.items()))
         # per-method reach table: in how many generated concurrent programs (rounds) was the exported method
         # invoked — by an operation named after it or by one the driver declares (`opmap`) to call it
@@ -215,7 +216,7 @@ def run(ctx):
     dis = ctx.correspond(lines, orc, "race detector reports ↔ Gen/Accesses.lean (lockset table)",
                          nontrivial=lambda op, impl: op.startswith("round ")) if orc and lines else []
     # ---- coverage
-    ctx.coverage["rule"] = ("generated concurrent client programs: per scenario (balancers, writer+fake RoundTripper, codecs, reader front with failing dialer, reader / consumer-group reader with a single-member fake coordinator / conn+batch / transport+client "
+    ctx.coverage["rule"] = ("generated concurrent client programs: per scenario (balancers, writer+fake RoundTripper, writers over topics with growing partition counts through every balancer, codecs, codecs with failing destinations/sources and double Close, reader front with failing dialer, reader / consumer-group reader with a single-member fake coordinator / conn+batch / transport+client "
                             "against an in-process fake broker over net.Pipe) each round draws 5–18 operations from the exported methods (with forced Close / SetOffset / Seek / Batch.Err mixes), "
                             "runs each in its own goroutine released together, under `go build -race` without the verif tag (production synchronisation only). "
                             "distinct = distinct (scenario, operation multiset) rounds; evaluations also count one line per clean scenario run and per distinct detector report")
